@@ -136,6 +136,9 @@ def run_unit(unit, acc):
             for b in seqs:
                 for ga, gb in ((len(a), len(b)), (0, 1), (len(a) + 1, 0)):
                     check_case(dict(layer="map", car=list(a), ped=list(b), G=[ga, gb]), acc)
+                if len(a) <= 2 and len(b) <= 2:   # three labels (equal AP values among them included)
+                    for c in seqs[:21:2]:
+                        check_case(dict(layer="map", car=list(a), ped=list(b), bic=list(c), G=[max(1, len(a)), max(1, len(b)), max(1, len(c))]), acc)
     else:
         est, gt = S.pools(_SEED[0])
         if unit.get("reduced"):   # quick tier: the manager layer uses the 7 x 6 core of the pools
@@ -297,21 +300,27 @@ def check_case(case, acc):
         car = [_res(s, i, "CAR") for i, s in enumerate(case["car"])]
         ped = [_res(s, i + 10, "PEDESTRIAN") for i, s in enumerate(case["ped"])]
         labels = [AutowareLabel.CAR, AutowareLabel.PEDESTRIAN]
+        per = [(case["car"], case["G"][0]), (case["ped"], case["G"][1])]
+        bylab, gnum = {labels[0]: list(car), labels[1]: list(ped)}, {labels[0]: case["G"][0], labels[1]: case["G"][1]}
+        if case.get("bic") is not None:   # a third target label
+            labels = labels + [AutowareLabel.BICYCLE]
+            bylab[labels[2]] = [_res(s, i + 20, "BICYCLE") for i, s in enumerate(case["bic"])]
+            gnum[labels[2]] = case["G"][2]
+            per.append((case["bic"], case["G"][2]))
         acc.exec()
-        mp = Map({labels[0]: list(car), labels[1]: list(ped)}, {labels[0]: case["G"][0], labels[1]: case["G"][1]}, labels,
-                 MatchingMode.CENTERDISTANCE, [1.0, 1.0])
+        mp = Map(bylab, gnum, labels, MatchingMode.CENTERDISTANCE, [1.0] * len(labels))
         refs = []
-        for sq, g in ((case["car"], case["G"][0]), (case["ped"], case["G"][1])):
+        for sq, g in per:
             refs.append(RAP.ap_from_ranking([None if s == "I" else (1 if s.startswith("T") else 0) for s in sq], g))
         acc.compared()
-        for li in range(2):
+        for li in range(len(labels)):
             if not AR.close(mp.aps[li].ap, refs[li]):
                 bad("map:ap-value", "label %d AP %r reference %s" % (li, mp.aps[li].ap, refs[li]))
         if not AR.close(mp.map, RAP.mean_defined(refs)):
             bad("map-value", "mAP %r, mean over defined APs %s (APs %s)" % (mp.map, RAP.mean_defined(refs), refs))
-        if not AR.close(mp.maph, RAP.mean_defined(refs)) and all(not s.startswith("T") or s == "T1" for s in case["car"] + case["ped"]):
+        if not AR.close(mp.maph, RAP.mean_defined(refs)) and all(not s.startswith("T") or s == "T1" for s in case["car"] + case["ped"] + (case.get("bic") or [])):
             bad("maph-value", "mAPH %r, reference %s" % (mp.maph, RAP.mean_defined(refs)))
-        acc.state(("map", "".join(case["car"]), "".join(case["ped"]), tuple(min(g, 2) for g in case["G"])),
+        acc.state(("map", "".join(case["car"]), "".join(case["ped"]), None if case.get("bic") is None else "".join(case["bic"]), tuple(min(g, 2) for g in case["G"])),
                   nontrivial=(refs[0] is None) != (refs[1] is None) or (refs[0] not in (None, 0, 1)))
     elif lay == "b":
         ests = [G.mk3d(s) for s in case["ests"]]
